@@ -18,8 +18,13 @@ func NewLocation(f *fs.File, i bytes.Index) Location {
 	loc := Location{
 		File:  f,
 		Index: i,
-		Quote: quote(f.Content(), i),
 	}
+	if f.Content().Len() == 0 || i > f.Content().LenIndex() {
+		// There is nothing to quote and no line to compute: an empty file or an
+		// index beyond the end of the file.
+		return loc
+	}
+	loc.Quote = quote(f.Content(), i)
 	loc.Line, loc.Column = f.Content().LineAndColumn(i)
 	return loc
 }
